@@ -302,6 +302,31 @@ def run_with_headroom(text, headroom: int):
     return out
 
 
+def emit_when_short(text, short_by: int):
+    """what emit() does when it is `short_by` interpreter frames short of what it needs on an accepted script (parse() runs
+    with all the room of this process): -> {"parse": None | kind, "need_emit": frames, "emit": None | exception kind}.
+    ValueError = emit() reports exhausted nesting cleanly (it is guarded like parse()), RecursionError = it is not."""
+    from Reduino.transpile.parser import parse
+    from Reduino.transpile.emitter import emit
+    try:
+        prog = parse(text)
+    except BaseException as e:  # noqa
+        return {"parse": type(e).__name__, "need_emit": None, "emit": None}
+    ok, _, need = stack_need(emit, prog)
+    if ok != "ok":
+        return {"parse": None, "need_emit": need, "emit": "unmeasured:" + str(_)}
+    old = sys.getrecursionlimit()
+    sys.setrecursionlimit(_depth_of(sys._getframe()) + max(1, need - short_by))
+    try:
+        emit(prog)
+        kind = None
+    except BaseException as e:  # noqa
+        kind = "SyntaxError" if isinstance(e, SyntaxError) else "ValueError" if isinstance(e, ValueError) else type(e).__name__
+    finally:
+        sys.setrecursionlimit(old)
+    return {"parse": None, "need_emit": need, "emit": kind}
+
+
 def boundary(spec, room: int, above: int = 6):
     """the acceptance boundary of one ladder family under `room` frames, by bisection between depth 1 and room + above, then
     the two depths above the deepest accepted one (their rejections must be clean too); emit() is tried at the deepest
